@@ -134,10 +134,30 @@ pub fn roundtrip_model(tier: Tier, world: &str) -> Hist {
     Hist { w, roots, alpha, oracles: vec![Box::new(NoFreeValueOracle)] }
 }
 
+/// stale banks: one clock advance, then a single operation on a bank that has not accrued since;
+/// incl. the banks in token-less repayment mode
+pub fn stale_model(_tier: Tier, world: &str) -> Hist {
+    let (w, s0) = c03_world(world);
+    let mut roots: Vec<(String, HState)> = standard_roots(&w, &s0, false).into_iter().filter(|(n, _)| n == "R1" || n == "R7").collect();
+    roots.extend(tokenless_roots(&w, &s0));
+    let mut alpha = Alphabet::standard(vec![0, 1], vec![0, 1]);
+    alpha.liquidate = false;
+    alpha.bankruptcy = false;
+    alpha.accrue = false;
+    alpha.collect = false;
+    alpha.close_balance = false;
+    alpha.max_clock_devs = 1;
+    alpha.clock_dts = vec![86_400 * 30];
+    alpha.max_price_devs = 0;
+    alpha.rich_amounts = true;
+    Hist { w, roots, alpha, oracles: vec![Box::new(NoFreeValueOracle)] }
+}
+
 pub fn model_for(replay: &serde_json::Value) -> Hist {
     let w = replay["world"].as_str().unwrap_or("A");
     match w.split_once(':') {
         Some(("sweep", n)) => sweep_model(Tier::Thorough, n),
+        Some(("stale", n)) => stale_model(Tier::Thorough, n),
         Some((_, n)) => roundtrip_model(Tier::Thorough, n),
         None => roundtrip_model(Tier::Thorough, w),
     }
@@ -169,12 +189,19 @@ pub fn run(tier: Tier) -> Outcome {
         let (report, recheck) = run_world(&h, &lim, Some(depth - 2));
         runs.push(HistRun { world: format!("rt:{wn}"), report, recheck });
     }
+    for wn in rt_worlds {
+        let h = stale_model(tier, wn);
+        let d = if tier == Tier::Quick { 2 } else { 3 };
+        let lim = Limits { max_depth: d, max_wall_s: if tier == Tier::Quick { 25.0 } else { 900.0 }, ..Default::default() };
+        let (report, recheck) = run_world(&h, &lim, Some(d - 1));
+        runs.push(HistRun { world: format!("stale:{wn}"), report, recheck });
+    }
     assemble(
         "C03",
         runs,
         &["deposit:ok:wealth_checked", "withdraw:ok:wealth_checked", "borrow:ok:wealth_checked", "repay:ok:wealth_checked", "withdraw_all:ok:wealth_checked", "repay_all:ok:wealth_checked"],
         &["withdraw_all:ok:user_lost_rounding", "repay_all:ok:user_lost_rounding"],
-        "(a) sweep: from forged-share-value roots (1, 1+ulp, 4/3, 0.37, 255.9, ...) in worlds with 0/6/8/9/18-decimal mints and three transfer-fee settings, every deposit/withdraw/withdraw_all/borrow/repay/repay_all with amounts {1,2,3, k*ceil(sv)+-1, floor(position)+-1, half, 2^20, 2^40, ...} is executed once (depth 1); (b) round trips: every sequence of the same operations by one user on two banks up to the depth bound with no clock or price action; on every committed step the user's token balance change plus exact position value change must not exceed a few ulps",
+        "(a) sweep: from forged-share-value roots (1, 1+ulp, 4/3, 0.37, 255.9, ...) in worlds with 0/6/8/9/18-decimal mints and three transfer-fee settings, every deposit/withdraw/withdraw_all/borrow/repay/repay_all with amounts {1,2,3, k*ceil(sv)+-1, floor(position)+-1, half, 2^20, 2^40, ...} is executed once (depth 1); (b) round trips: every sequence of the same operations by one user on two banks up to the depth bound with no clock or price action; (c) stale banks: from roots with accrued share values, the risk admin being a borrower, and banks in token-less repayment mode, every sequence up to depth 2/3 with one 30-day clock advance, positions valued at the share values of the bank brought up to date by the real accrue instruction; on every committed step the user's token balance change plus exact position value change must not exceed a few ulps",
         vec!["environment model E1 (svm-lite)".into(), "sweep roots forge share values while no shares exist (consistent books); listed as forged".into()],
         &["sv1", "sv1ulp", "sv4_3", "sv037", "sv255"],
     )
